@@ -114,7 +114,49 @@ Proof. reflexivity. Qed.
 Lemma ghost_live cp b r : ghost_ok cp -> In (b, r) (cp_ghost cp) -> is_live (cp_page cp) b.
 Proof. intros (_ & H & _) Hin. apply H. apply (in_map fst) in Hin. exact Hin. Qed.
 
-(* a live block lies inside its page area, the area inside its span, the span inside the segment *)
+(* block b of page cp of segment cs exists (below the page's capacity), live or not *)
+Definition block_at (m : mem) (cs : cseg) (cp : cpage) (b : N) : Prop :=
+  In cs m /\ In cp (cs_pages cs) /\ b < capacity (cp_page cp).
+
+Lemma live_block_at m cs cp b req : mem_inv m -> live_at m cs cp b req -> block_at m cs cp b.
+Proof.
+  intros Hm (Hcs & Hcp & Hg). split; [assumption|]. split; [assumption|].
+  destruct (page_ok_In _ _ (seg_ok_In _ _ Hm Hcs) Hcp) as (_ & _ & _ & Hgo).
+  apply (ghost_live _ _ _ Hgo Hg).
+Qed.
+
+(* a block lies inside its page area, the area inside its span, the span inside the segment *)
+Theorem block_inside m cs cp b : mem_inv m -> block_at m cs cp b ->
+  let idx := cp_idx cp in let bs := bsize (cp_page cp) in
+  let start := fst (page_area cs idx) in let psize := snd (page_area cs idx) in
+  let p := block_addr cs cp b in
+  exists c, In (idx, c) (used_spans (fst (cs_st cs))) /\ 0 < idx /\
+    0 < bs /\
+    start <= p /\ p + bs <= start + psize /\
+    cs_base cs + idx * MI_SEGMENT_SLICE_SIZE <= start /\
+    start <= cs_base cs + idx * MI_SEGMENT_SLICE_SIZE + MI_SEGMENT_SLICE_SIZE /\
+    start + psize = cs_base cs + (idx + c) * MI_SEGMENT_SLICE_SIZE /\
+    (idx + c) * MI_SEGMENT_SLICE_SIZE <= seg_size cs /\
+    cs_base cs + seg_size cs < 2^63.
+Proof.
+  intros Hm (Hcs & Hcp & Hcap). cbv zeta.
+  pose proof (seg_ok_In _ _ Hm Hcs) as Hs.
+  destruct (page_span _ _ Hs Hcp) as (Hi0 & c & Hsp).
+  destruct (used_span_facts _ _ _ Hs Hsp) as (Hcnt & Hbz & Hc & Hc32 & Hi512 & Hext).
+  destruct (page_ok_In _ _ Hs Hcp) as (Hpi & Hbs & Hres & Hgo).
+  pose proof Hs as (Hal & Hb0 & Hb63 & Hbsz & _).
+  exists c. split; [assumption|]. split; [assumption|].
+  rewrite page_area_eq. rewrite Hcnt in *.
+  destruct (page_area_in_span (cs_base cs) (cp_idx cp) c (bsz (get (entries (fst (cs_st cs))) (cp_idx cp))) Hal Hb63 Hc Hc32 Hi512)
+    as (A1 & A2 & A3). cbv zeta in A1, A2, A3.
+  set (ps := page_start_from_slice (cs_base cs) (cp_idx cp) c (bsz (get (entries (fst (cs_st cs))) (cp_idx cp)))) in *.
+  destruct (block_inside_area (cp_page cp) (fst ps) (snd ps) b Hpi Hres Hcap) as (B1 & B2).
+  unfold block_addr. rewrite page_area_eq, Hcnt. fold ps.
+  split; [rewrite Hbs; assumption|].
+  split; [assumption|]. split; [assumption|]. split; [assumption|]. split; [assumption|].
+  split; [assumption|]. split; [apply Hext; assumption|assumption].
+Qed.
+
 Theorem live_inside m cs cp b req : mem_inv m -> live_at m cs cp b req ->
   let idx := cp_idx cp in let bs := bsize (cp_page cp) in
   let start := fst (page_area cs idx) in let psize := snd (page_area cs idx) in
@@ -128,38 +170,26 @@ Theorem live_inside m cs cp b req : mem_inv m -> live_at m cs cp b req ->
     (idx + c) * MI_SEGMENT_SLICE_SIZE <= seg_size cs /\
     cs_base cs + seg_size cs < 2^63.
 Proof.
-  intros Hm (Hcs & Hcp & Hg). cbv zeta.
-  pose proof (seg_ok_In _ _ Hm Hcs) as Hs.
-  destruct (page_span _ _ Hs Hcp) as (Hi0 & c & Hsp).
-  destruct (used_span_facts _ _ _ Hs Hsp) as (Hcnt & Hbz & Hc & Hc32 & Hi512 & Hext).
-  destruct (page_ok_In _ _ Hs Hcp) as (Hpi & Hbs & Hres & Hgo).
-  pose proof Hs as (Hal & Hb0 & Hb63 & Hbsz & _).
-  pose proof (ghost_live _ _ _ Hgo Hg) as Hlive. destruct Hgo as (_ & _ & Hreq).
-  exists c. split; [assumption|]. split; [assumption|].
-  rewrite page_area_eq. rewrite Hcnt in *.
-  destruct (page_area_in_span (cs_base cs) (cp_idx cp) c (bsz (get (entries (fst (cs_st cs))) (cp_idx cp))) Hal Hb63 Hc Hc32 Hi512)
-    as (A1 & A2 & A3). cbv zeta in A1, A2, A3.
-  set (ps := page_start_from_slice (cs_base cs) (cp_idx cp) c (bsz (get (entries (fst (cs_st cs))) (cp_idx cp)))) in *.
-  destruct (block_inside_area (cp_page cp) (fst ps) (snd ps) b Hpi Hres (proj1 Hlive)) as (B1 & B2).
-  unfold block_addr. rewrite page_area_eq, Hcnt. fold ps.
-  split; [rewrite Hbs; assumption|]. split; [apply (Hreq _ _ Hg)|]. split; [apply Hlive|].
-  split; [assumption|]. split; [assumption|]. split; [assumption|]. split; [assumption|].
-  split; [assumption|]. split; [apply Hext; assumption|assumption].
+  intros Hm L. pose proof (live_block_at _ _ _ _ _ Hm L) as B. cbv zeta.
+  destruct (block_inside _ _ _ _ Hm B) as (c & H1 & H2 & H3 & H4). exists c.
+  destruct L as (Hcs & Hcp & Hg). destruct (page_ok_In _ _ (seg_ok_In _ _ Hm Hcs) Hcp) as (_ & _ & _ & (_ & _ & Hreq)).
+  split; [assumption|]. split; [assumption|]. split; [assumption|]. split; [apply (Hreq _ _ Hg)|].
+  split; [apply B|]. exact H4.
 Qed.
 
 (* ------------------------------------------------------------------------------------- *)
 (* C01_compose_live_disjoint                                                               *)
 (* ------------------------------------------------------------------------------------- *)
 
-Theorem live_disjoint m cs1 cp1 b1 r1 cs2 cp2 b2 r2 :
-  mem_inv m -> live_at m cs1 cp1 b1 r1 -> live_at m cs2 cp2 b2 r2 ->
+Theorem blocks_disjoint m cs1 cp1 b1 cs2 cp2 b2 :
+  mem_inv m -> block_at m cs1 cp1 b1 -> block_at m cs2 cp2 b2 ->
   (cs_base cs1, cp_idx cp1, b1) <> (cs_base cs2, cp_idx cp2, b2) ->
   block_addr cs1 cp1 b1 + bsize (cp_page cp1) <= block_addr cs2 cp2 b2 \/
   block_addr cs2 cp2 b2 + bsize (cp_page cp2) <= block_addr cs1 cp1 b1.
 Proof.
   intros Hm L1 L2 Hne.
-  destruct (live_inside _ _ _ _ _ Hm L1) as (c1 & Hsp1 & Hi1 & Hbs1 & _ & _ & A1 & A2 & _ & _ & _ & E1 & _).
-  destruct (live_inside _ _ _ _ _ Hm L2) as (c2 & Hsp2 & Hi2 & Hbs2 & _ & _ & B1 & B2 & _ & _ & _ & E2 & _).
+  destruct (block_inside _ _ _ _ Hm L1) as (c1 & Hsp1 & Hi1 & Hbs1 & A1 & A2 & _ & _ & _ & E1 & _).
+  destruct (block_inside _ _ _ _ Hm L2) as (c2 & Hsp2 & Hi2 & Hbs2 & B1 & B2 & _ & _ & _ & E2 & _).
   destruct L1 as (Hcs1 & Hcp1 & Hg1). destruct L2 as (Hcs2 & Hcp2 & Hg2).
   pose proof (seg_ok_In _ _ Hm Hcs1) as Hs1. pose proof (seg_ok_In _ _ Hm Hcs2) as Hs2.
   destruct (page_ok_In _ _ Hs1 Hcp1) as (_ & Hbz1 & _). destruct (page_ok_In _ _ Hs2 Hcp2) as (_ & Hbz2 & _).
@@ -177,25 +207,44 @@ Proof.
   - intros Eb. apply Hap; assumption.
 Qed.
 
-(* two live blocks with the same address are the same block *)
+Theorem live_disjoint m cs1 cp1 b1 r1 cs2 cp2 b2 r2 :
+  mem_inv m -> live_at m cs1 cp1 b1 r1 -> live_at m cs2 cp2 b2 r2 ->
+  (cs_base cs1, cp_idx cp1, b1) <> (cs_base cs2, cp_idx cp2, b2) ->
+  block_addr cs1 cp1 b1 + bsize (cp_page cp1) <= block_addr cs2 cp2 b2 \/
+  block_addr cs2 cp2 b2 + bsize (cp_page cp2) <= block_addr cs1 cp1 b1.
+Proof.
+  intros Hm L1 L2. apply (blocks_disjoint m); [assumption|eapply live_block_at; eassumption|eapply live_block_at; eassumption].
+Qed.
+
+(* two blocks with the same address are the same block *)
+Lemma block_same_addr m cs1 cp1 b1 cs2 cp2 b2 :
+  mem_inv m -> block_at m cs1 cp1 b1 -> block_at m cs2 cp2 b2 ->
+  block_addr cs1 cp1 b1 = block_addr cs2 cp2 b2 -> cs1 = cs2 /\ cp1 = cp2 /\ b1 = b2.
+Proof.
+  intros Hm L1 L2 E.
+  destruct (block_inside _ _ _ _ Hm L1) as (_ & _ & _ & Hbs1 & _).
+  destruct (block_inside _ _ _ _ Hm L2) as (_ & _ & _ & Hbs2 & _).
+  assert (T : (cs_base cs1, cp_idx cp1, b1) = (cs_base cs2, cp_idx cp2, b2)).
+  { destruct (N.eq_dec (cs_base cs1) (cs_base cs2)) as [Ea|Ea];
+    [destruct (N.eq_dec (cp_idx cp1) (cp_idx cp2)) as [Eb|Eb]; [destruct (N.eq_dec b1 b2) as [Ec|Ec]; [congruence|]|]|];
+    (exfalso; assert (Hne : (cs_base cs1, cp_idx cp1, b1) <> (cs_base cs2, cp_idx cp2, b2)) by congruence;
+     destruct (blocks_disjoint _ _ _ _ _ _ _ Hm L1 L2 Hne); lia). }
+  inversion T as [[Ea Eb Ec]].
+  destruct L1 as (Hcs1 & Hcp1 & Hg1). destruct L2 as (Hcs2 & Hcp2 & Hg2).
+  pose proof Hm as (Hnd & _). pose proof (key_inj cs_base m cs1 cs2 Hnd Hcs1 Hcs2 Ea) as ->.
+  pose proof (seg_ok_In _ _ Hm Hcs1) as Hs. pose proof Hs as (_ & _ & _ & _ & _ & Hndp & _).
+  pose proof (key_inj cp_idx _ cp1 cp2 Hndp Hcp1 Hcp2 Eb) as ->. auto.
+Qed.
+
 Lemma live_same_addr m cs1 cp1 b1 r1 cs2 cp2 b2 r2 :
   mem_inv m -> live_at m cs1 cp1 b1 r1 -> live_at m cs2 cp2 b2 r2 ->
   block_addr cs1 cp1 b1 = block_addr cs2 cp2 b2 -> cs1 = cs2 /\ cp1 = cp2 /\ b1 = b2 /\ r1 = r2.
 Proof.
   intros Hm L1 L2 E.
-  destruct (live_inside _ _ _ _ _ Hm L1) as (_ & _ & _ & Hbs1 & _).
-  destruct (live_inside _ _ _ _ _ Hm L2) as (_ & _ & _ & Hbs2 & _).
-  assert (T : (cs_base cs1, cp_idx cp1, b1) = (cs_base cs2, cp_idx cp2, b2)).
-  { destruct (N.eq_dec (cs_base cs1) (cs_base cs2)) as [Ea|Ea];
-    [destruct (N.eq_dec (cp_idx cp1) (cp_idx cp2)) as [Eb|Eb]; [destruct (N.eq_dec b1 b2) as [Ec|Ec]; [congruence|]|]|];
-    (exfalso; assert (Hne : (cs_base cs1, cp_idx cp1, b1) <> (cs_base cs2, cp_idx cp2, b2)) by congruence;
-     destruct (live_disjoint _ _ _ _ _ _ _ _ _ Hm L1 L2 Hne); lia). }
-  inversion T as [[Ea Eb Ec]].
+  destruct (block_same_addr m cs1 cp1 b1 cs2 cp2 b2 Hm (live_block_at _ _ _ _ _ Hm L1) (live_block_at _ _ _ _ _ Hm L2) E)
+    as (-> & -> & ->).
   destruct L1 as (Hcs1 & Hcp1 & Hg1). destruct L2 as (Hcs2 & Hcp2 & Hg2).
-  pose proof Hm as (Hnd & _). pose proof (key_inj cs_base m cs1 cs2 Hnd Hcs1 Hcs2 Ea) as ->.
-  pose proof (seg_ok_In _ _ Hm Hcs1) as Hs. pose proof Hs as (_ & _ & _ & _ & _ & Hndp & _).
-  pose proof (key_inj cp_idx _ cp1 cp2 Hndp Hcp1 Hcp2 Eb) as ->. subst b2.
-  destruct (page_ok_In _ _ Hs Hcp1) as (_ & _ & _ & (Hndg & _)).
+  destruct (page_ok_In _ _ (seg_ok_In _ _ Hm Hcs1) Hcp1) as (_ & _ & _ & (Hndg & _)).
   repeat split; try reflexivity.
-  pose proof (key_inj fst _ (b1, r1) (b1, r2) Hndg Hg1 Hg2 eq_refl) as Er. inversion Er. reflexivity.
+  pose proof (key_inj fst _ (b2, r1) (b2, r2) Hndg Hg1 Hg2 eq_refl) as Er. inversion Er. reflexivity.
 Qed.
